@@ -330,7 +330,8 @@ def schedule_strategy(max_dur=12, max_epochs=5, min_posterior=1, chains=(1, 3), 
         if err_tables:
             T = 1 + sum(durs)
             for i, kk in enumerate(kernels):
-                modes = ["dense", "dense", "sparse", "one-chain", "warm", "post"] + (["none"] if i == 0 else ["none"] * 5)
+                modes = (["sparse", "one-chain", "sparse", "one-chain", "dense", "warm", "post", "none"] if i == 0
+                         else ["dense", "sparse", "one-chain", "warm", "post"] + ["none"] * 5)
                 mode = draw(st.sampled_from(modes))
                 kk["errs"] = {"mode": mode, "seed": draw(st.integers(0, 2**20)), "T": T}
         return sp
